@@ -23,6 +23,16 @@ let without (vars : string list) (s : string) : string =
       else l) lines in
   String.concat "\n" lines
 
+(* stdout~~stderr: the known findings are removed from each part separately, error messages about the variable from stderr *)
+let split_streams (s : string) : string * string =
+  let n = String.length s in
+  let rec find i = if i < 0 then None else if i + 1 < n && s.[i] = '~' && s.[i + 1] = '~' && (i = 0 || s.[i - 1] = '\n') then Some i else find (i - 1) in
+  match find (n - 2) with Some i -> (String.sub s 0 i, String.sub s (i + 2) (n - i - 2)) | None -> (s, "")
+let without2 (vars : string list) (s : string) : string * string =
+  let (o, e) = split_streams s in
+  let e_lines = List.filter (fun l -> not (List.exists (fun v -> contains l (v ^ ": readonly variable")) vars)) (String.split_on_char '\n' e) in
+  (without vars o, without vars (String.concat "\n" e_lines))
+
 let run () = iter_lines (fun line ->
   try
     match split_on '|' (String.sub line 2 (String.length line - 2)) with
@@ -46,10 +56,10 @@ let run () = iter_lines (fun line ->
           if a <> b && not !dead then begin
             (* which known findings can explain a difference at this point of the history *)
             let vars = (if String.contains !seen 'U' then ["INH2"] else []) @ (if String.contains !seen 'B' then ["IFS"] else []) @ (if String.contains !seen 'r' then ["RO"] else []) in
-            if vars <> [] && without vars a = without vars b then begin
-              if List.mem "INH2" vars && without (List.filter (fun v -> v <> "INH2") vars) a <> without (List.filter (fun v -> v <> "INH2") vars) b then
+            if vars <> [] && without2 vars a = without2 vars b then begin
+              if List.mem "INH2" vars && without2 (List.filter (fun v -> v <> "INH2") vars) a <> without2 (List.filter (fun v -> v <> "INH2") vars) b then
                 report "SPEC:C12" "known:unset-not-carried a variable that the fresh process defines by itself (inherited environment, IFS) was unset, the next test case sees it again" line
-              else if List.mem "IFS" vars && without (List.filter (fun v -> v <> "IFS") vars) a <> without (List.filter (fun v -> v <> "IFS") vars) b then
+              else if List.mem "IFS" vars && without2 (List.filter (fun v -> v <> "IFS") vars) a <> without2 (List.filter (fun v -> v <> "IFS") vars) b then
                 report "SPEC:C12" "known:unset-not-carried a variable that the fresh process defines by itself (inherited environment, IFS) was unset, the next test case sees it again" line
               else report "SPEC:C12" "known:readonly-not-carried a read-only variable is not carried to the next test case (documented exclusion)" line
             end else
